@@ -269,6 +269,12 @@ def evaluate(ctx, cases):
             if "err" in r:
                 ctx.violation("concurrent tasks on one compiled query raised", inp, r["err"], "results")
             else:
+                for i in range(3):
+                    want_vals = ref[i % len(docs)] if isinstance(ref[i % len(docs)], dict) else [v for _, v in ref[i % len(docs)]]
+                    got_vals = [core.canon(v) for v in r["ok"][6 + i]] if isinstance(r["ok"][6 + i], list) else r["ok"][6 + i]
+                    if not isinstance(want_vals, dict) and got_vals != want_vals:
+                        ctx.violation("findall_async of one compiled query running concurrently as tasks must return the values of the synchronous evaluation", {**inp, "task": 6 + i}, got_vals[:4], want_vals[:4])
+                        break
                 for i in range(6):
                     if r["ok"][i] != ref[i % len(docs)]:
                         ctx.violation("evaluations of one compiled query running concurrently as tasks must each return their own result", {**inp, "task": i}, r["ok"][i][:4], ref[i % len(docs)] if isinstance(ref[i % len(docs)], dict) else ref[i % len(docs)][:4])
